@@ -322,11 +322,11 @@ def cases(tier):
             add("case_length", f"len_L{L}_fs{fs.replace('/', '_')}", L=L, fs=fs)
     for comp in FACTORS:
         add("case_amplitudes", f"amp1d_{comp}", component=comp, kind="1d", opts=dict(weight=10))
-    for comp in (("z", "u", "y") if q else FACTORS):
+    for comp in FACTORS:
         add("case_amplitudes", f"amp2d_{comp}", component=comp, kind="2d", opts=dict(weight=30, trig_axioms=False))
-    add("case_variance", "var_z_n8", component="z", nfft=8, opts=dict(weight=60, case_timeout_s=280))
-    add("case_variance", "var_w_n8", component="w", nfft=8, opts=dict(weight=60, case_timeout_s=280))
-    add("case_variance", "var_z_n8_nyquist_energy", component="z", nfft=8, nyq=True, opts=dict(weight=60, case_timeout_s=280))
+    add("case_variance", "var_z_n8", component="z", nfft=8, opts=dict(weight=60, case_timeout_s=900))
+    add("case_variance", "var_w_n8", component="w", nfft=8, opts=dict(weight=60, case_timeout_s=900))
+    add("case_variance", "var_z_n8_nyquist_energy", component="z", nfft=8, nyq=True, opts=dict(weight=60, case_timeout_s=900))
     if not q:
         add("case_variance", "var_z_n12", component="z", nfft=12, opts=dict(weight=200, case_timeout_s=1500))
     add("case_scaling", "scaling_n8", opts=dict(weight=20))
